@@ -283,11 +283,12 @@ Proof.
   apply Forall_app. split; [apply lebytes_ok|]. repeat constructor; unfold byte_ok; lia.
 Qed.
 
-Theorem roundtrip_corre ch s x y w h tgt ts :
+Theorem roundtrip_corre_count ch s x y w h tgt ts :
   st_wf s -> bypp_ok s -> 0 <= x -> 0 <= y -> 0 <= w <= 255 -> 0 <= h <= 255 ->
   x + w <= c_w s -> y + h <= c_h s ->
   rows_wf w h tgt -> Forall (Forall (px_ok (bypp_of s))) tgt ->
-  3 + w * h <= cCoRREBound_num / (4 + bypp_of s) ->    (* the client refuses larger sub-rectangle counts *)
+  (* the client refuses sub-rectangle counts above RFB_BUFFER_SIZE / (4 + Bpp): the EMITTED count must respect it *)
+  zlen (snd (plan ch 0 255 255 w h (pxmod_of (bypp_of s)) tgt)) <= cCoRREBound_num / (4 + bypp_of s) ->
   dec_corre x y w h s (toks (ref_corre ch (bypp_of s) w h tgt) ++ ts) = Ok tt (set_fb s (blit_spec (c_fb s) x y tgt)) ts.
 Proof.
   intros Hs [Hb1 Hb2] Hx Hy Hw Hh Hxw Hyh Ht Hp Hbound. unfold dec_corre, ref_corre.
@@ -329,4 +330,16 @@ Proof.
   - apply st_wf_set_fb; [assumption|]. apply blit_spec_wf. apply Hs.
   - apply Hs.
   - apply fill_rows_wf; lia.
+Qed.
+
+(* the area-based sufficient condition: the plan emits at most 3 + w * h sub-rectangles *)
+Theorem roundtrip_corre ch s x y w h tgt ts :
+  st_wf s -> bypp_ok s -> 0 <= x -> 0 <= y -> 0 <= w <= 255 -> 0 <= h <= 255 ->
+  x + w <= c_w s -> y + h <= c_h s ->
+  rows_wf w h tgt -> Forall (Forall (px_ok (bypp_of s))) tgt ->
+  3 + w * h <= cCoRREBound_num / (4 + bypp_of s) ->
+  dec_corre x y w h s (toks (ref_corre ch (bypp_of s) w h tgt) ++ ts) = Ok tt (set_fb s (blit_spec (c_fb s) x y tgt)) ts.
+Proof.
+  intros Hs Hb Hx Hy Hw Hh Hxw Hyh Ht Hp Hbound. apply roundtrip_corre_count; auto.
+  pose proof (plan_len ch 0 255 255 w h (pxmod_of (bypp_of s)) tgt ltac:(lia) ltac:(lia) Ht) as Hlen. lia.
 Qed.
